@@ -318,7 +318,7 @@ macro_rules! parts {
     }};
 }
 
-static SYS: LockStep = LockStep { property: "C18", probes: true, seed: None, via_feed: false };
+static SYS: LockStep = LockStep { property: "C18", probes: true, seed: None, via_feed: false, merged: false };
 
 pub fn run(ctx: &Ctx) -> Report {
     let mut rep = Report::new();
